@@ -276,3 +276,39 @@ func ZZ_C01_malformedOverrideStillBound() {
 	nondet.Observe("creates", c.Count("create", "Pod"))
 	nondet.Reach("C01.malformed.pod-created", c.Count("create", "Pod") >= 1)
 }
+
+// ZZ_C01_repairWhilePausedOrFrozen: "When a node nevertheless holds several such pods, all but one
+// are deleted ...; pods on nodes that stopped being eligible are deleted" — these repairs are not
+// part of updating pods, so the rolling-update-paused and rollout-frozen annotations (which stop
+// deletions "in order to update" / "for updating", C08) do not suspend them.  node0 holds two
+// Running up-to-date pods, node1 got an untolerated NoSchedule taint and still holds its pod; the
+// active replica set syncs with either, both or none of the annotations.
+func ZZ_C01_repairWhilePausedOrFrozen() {
+	c, ds, rsNew, _ := zzStore(2)
+	ds.Status.ActiveReplicaSet = rsNew.Name
+	ann := nondet.String("annotation", "none", "rolling-update-paused", "rollout-frozen", "both")
+	if ann == "rolling-update-paused" || ann == "both" {
+		ds.Annotations[datadoghqv1alpha1.ExtendedDaemonSetRollingUpdatePausedAnnotationKey] = "true"
+	}
+	if ann == "rollout-frozen" || ann == "both" {
+		ds.Annotations[datadoghqv1alpha1.ExtendedDaemonSetRolloutFrozenAnnotationKey] = "true"
+	}
+	c.Nodes[1].Spec.Taints = []corev1.Taint{{Key: "dedicated", Value: "db", Effect: corev1.TaintEffectNoSchedule}}
+	c.Pods = append(c.Pods,
+		zzPod("older", zzNodeName(0), zzRSName, zzHashNew, 0, corev1.PodRunning, true, nondet.Base().Add(-3600*1e9)),
+		zzPod("newer", zzNodeName(0), zzRSName, zzHashNew, 0, corev1.PodRunning, true, nondet.Base().Add(-60*1e9)),
+		zzPod("stranded", zzNodeName(1), zzRSName, zzHashNew, 0, corev1.PodRunning, true, nondet.Base().Add(-3600*1e9)))
+	_, err := zzReconcile(zzReconciler(c, nondet.Bool("nodeAffinitySupported")), zzNS, rsNew.Name)
+	nondet.Assert("C01.repair.noerror", err == nil)
+	deleted := map[string]bool{}
+	for _, e := range c.Log {
+		if e.Verb == "delete" && e.Kind == "Pod" {
+			deleted[e.Name] = true
+		}
+	}
+	nondet.Assert("C01.repair.duplicate-removed", deleted["newer"] && !deleted["older"])
+	nondet.Assert("C01.repair.pod-on-ineligible-node-removed", deleted["stranded"])
+	nondet.Assert("C01.repair.nothing-created", c.Count("create", "Pod") == 0)
+	nondet.Observe("deletes", c.Count("delete", "Pod"))
+	nondet.Reach("C01.repair.while-frozen", ann == "rollout-frozen" && deleted["newer"])
+}
